@@ -180,7 +180,10 @@ def run(ctx):
                 re.match(r"^babylon::ConcurrentBoundedQueue<.*>::(try_)?pop(_n)?$", n.ev.get("callee", "") or "")]
         sweep = [n for n in ig.ev_nodes() if n.id in live and n.ev["e"] == "decl" and n.ev.get("name", "").startswith("__range") and
                  strip_cast(n.ev.get("init", {})).get("n") == "_destinations"]
-        writes = list(L.call_nodes(ig, name="write_use_plain_writev", live=live))
+        # the write-out step, found by role: a call to a member of the appender that reaches ::writev (or writev itself)
+        writer_ids = set(f.id for f in fn.tu.fns.values() if f.record == APP and any(True for _ in L.fn_calls(f, name="writev")))
+        writes = [n for n in ig.ev_nodes() if n.id in live and n.ev["e"] == "call" and
+                  (n.ev.get("cid") in writer_ids or n.ev.get("name") == "writev")]
         ok = bool(pops) and bool(sweep) and bool(writes)
         for p in pops:
             if ig.exit.id in ig.reach([p], removed=sweep):
